@@ -14,6 +14,7 @@ that count bytes so that chunk lengths stay symbolic.
 from __future__ import annotations
 
 import asyncio
+import errno
 import logging
 import struct
 import types
@@ -35,9 +36,10 @@ from aioslsk.network.connection import (
 )
 from aioslsk.network.rate_limiter import RateLimiter, LimitedRateLimiter, UnlimitedRateLimiter
 from aioslsk.protocol import primitives
-from aioslsk.protocol.messages import PeerTransferReply, PeerTransferRequest, PeerUploadFailed
+from aioslsk.protocol.messages import PeerTransferQueue, PeerTransferReply, PeerTransferRequest, PeerUploadFailed
 from aioslsk.transfer.manager import TransferManager, _RequestFlag
-from aioslsk.transfer.model import Transfer, TransferDirection
+from aioslsk.transfer.model import FailReason, Transfer, TransferDirection
+from aioslsk.user.model import UserStatus
 from aioslsk.transfer.state import TransferState
 from aioslsk.utils import ticket_generator
 
@@ -293,6 +295,10 @@ class _OpenCM:
         if self.mode == 'ab':
             if self.path not in fs.files:
                 fs.files[self.path] = LocalFile(0)
+            fs.appenders[self.path] = fs.appenders.get(self.path, 0) + 1
+            self.counted = True
+            if fs.appenders[self.path] > 1:
+                fs.concurrent.append(self.path)       # two handles write the same file at the same time
         elif self.mode == 'rb':
             if self.path not in fs.files:
                 raise FileNotFoundError(2, 'No such file or directory', self.path)
@@ -305,6 +311,8 @@ class _OpenCM:
         return _Handle(fs, self.path, self.mode)
 
     async def __aexit__(self, *a):
+        if getattr(self, 'counted', False):
+            self.fs.appenders[self.path] -= 1
         return False
 
 
@@ -314,6 +322,9 @@ class FS:
         self.opens = []
         self.removed = []
         self.truncated = []
+        self.appenders = {}        # path -> number of open append handles
+        self.concurrent = []       # paths that had two append handles open at once
+        self.handed_log = []       # every chunk a scripted uploader handed to the downloader, in global order
         # what gets injected in place of the `aiofiles` / `aiofiles.os` modules
         self.aiofiles = types.SimpleNamespace(open=self._open)
         self.asyncos = types.SimpleNamespace(
@@ -461,6 +472,9 @@ class _Shares:
     async def create_directory(self, path):
         return None
 
+    async def find_shared_item(self, remote_path, username=None):
+        return object()
+
 
 class _Ctrl:
     """the peer (P) connection on which the transfer request arrived"""
@@ -483,6 +497,10 @@ def make_manager(env, net):
     m._file_connection_futures = TicketMap()
     m._management_queue = env.loop.call(asyncio.Queue, 1)
     m._management_flags = _RequestFlag(0)
+    # nobody is blocked, every user is online (C05/C08 cover what these decide)
+    m._settings = types.SimpleNamespace(users=types.SimpleNamespace(is_blocked=lambda u, f: False, friends=set()))
+    m._user_manager = types.SimpleNamespace(
+        get_user_object=lambda name: types.SimpleNamespace(name=name, status=UserStatus.ONLINE, privileged=False))
     return m
 
 
@@ -519,7 +537,18 @@ def task_error(task):
 # scripted remote uploader (the peer of a download)
 # ------------------------------------------------------------------------------------------
 
-FAULTS = ['eof', 'reset', 'hang']
+# how a socket operation fails: the exception classes real sockets / asyncio streams raise, enumerated per fault
+SOCKET_ERRORS = {
+    'reset': lambda: ConnectionResetError(errno.ECONNRESET, 'Connection reset by peer'),
+    'aborted': lambda: ConnectionAbortedError(errno.ECONNABORTED, 'Software caused connection abort'),
+    'pipe': lambda: BrokenPipeError(errno.EPIPE, 'Broken pipe'),
+    'oserror': lambda: OSError(errno.EHOSTUNREACH, 'No route to host'),
+    'timedout': lambda: TimeoutError(errno.ETIMEDOUT, 'Connection timed out'),     # is asyncio.TimeoutError on 3.11+
+}
+READ_FAULTS = {'basic': ['eof', 'reset', 'hang'],
+               'all': ['eof', 'reset', 'aborted', 'pipe', 'oserror', 'timedout', 'hang'],
+               'instant': ['eof', 'reset']}
+WRITE_FAULTS = {'basic': ['reset', 'hang'], 'all': ['reset', 'aborted', 'pipe', 'oserror', 'timedout', 'hang']}
 
 
 class Sender:
@@ -528,10 +557,13 @@ class Sender:
     in everything the property quantifies over: how many bytes each read returns (1..asked),
     when the stream ends (EOF / reset / silence) and whether it sends more than was announced."""
 
-    def __init__(self, c, env, tag, max_data_reads, offset_fault):
+    def __init__(self, c, env, tag, max_data_reads, offset_fault, faults='basic', gate_after=None):
         self.c, self.env, self.tag = c, env, tag
         self.max_data_reads = max_data_reads
-        self.offset_fault = offset_fault      # 'ok' | 'reset' | 'hang' : what happens to the write of the offset
+        self.offset_fault = offset_fault      # 'ok' | one of WRITE_FAULTS['all'] : what happens to the write of the offset
+        self.faults = READ_FAULTS[faults]
+        self.gate_after = gate_after          # after that many data reads the next read waits until the harness opens the gate
+        self.gate = None
         self.written = []
         self.offset = None                    # integer decoded from the wire
         self.src = None
@@ -545,12 +577,12 @@ class Sender:
         self.written.append(data)
 
     async def drain(self):
-        if self.offset_fault == 'reset':
-            self.fault = 'offset_reset'
-            raise ConnectionResetError('connection reset by peer')
+        if self.offset_fault == 'ok':
+            return
+        self.fault = 'offset_' + self.offset_fault
         if self.offset_fault == 'hang':
-            self.fault = 'offset_hang'
             await self.env.loop.create_future()
+        raise SOCKET_ERRORS[self.offset_fault]()
 
     def is_closing(self):
         return self.closed
@@ -575,9 +607,12 @@ class Sender:
         if self.offset is None:
             self.fault = 'eof'        # what arrived is not an 8-byte offset: this uploader gives up and closes
             return b''
+        if self.gate_after is not None and self.gate is None and len(self.handed) == self.gate_after:
+            self.gate = self.env.loop.create_future()      # nothing arrives until the harness says so
+            await self.gate
         i = self.reads
         self.reads += 1
-        kinds = (['data'] if len(self.handed) < self.max_data_reads else []) + FAULTS
+        kinds = (['data'] if len(self.handed) < self.max_data_reads else []) + self.faults
         kind = kinds[c.choose(len(kinds), f'{self.tag}_read{i}')]
         if kind == 'data':
             m = c.fresh_int(f'{self.tag}_n{i}', 1, None)
@@ -585,16 +620,29 @@ class Sender:
             ch = Chunk(self.src, m)
             self.src = self.src + m
             self.handed.append(ch)
+            self.env.fs.handed_log.append(ch)
             return ch
         self.fault = kind
         if kind == 'eof':
             return b''
-        if kind == 'reset':
-            raise ConnectionResetError('connection reset by peer')
-        await self.env.loop.create_future()       # silence: only the read time-out ends this
+        if kind == 'hang':
+            await self.env.loop.create_future()       # silence: only the read time-out ends this
+        raise SOCKET_ERRORS[kind]()
 
     async def readexactly(self, n):
         raise symex.HarnessError('readexactly on the download side of a file connection')
+
+
+def break_state_ok(fault, st, reason):
+    """what the state of a download may be after the connection broke (statement + _download_file / _initialize_download
+    docstrings): a read/write error or time-out gives INCOMPLETE (the retryable state); a clean close by the uploader before
+    the announced size is the documented explicit case 'not all bytes transfered: FAIL' -> FAILED('Cancelled') (or INCOMPLETE).
+    COMPLETE is accepted here only because complete_size_is_announced_size polices it."""
+    if st in (S.INCOMPLETE, S.COMPLETE):
+        return True
+    if fault == 'eof':
+        return st == S.FAILED and reason == FailReason.CANCELLED
+    return False
 
 
 def chunks_total(chunks):
@@ -604,7 +652,7 @@ def chunks_total(chunks):
     return t
 
 
-def h_download(c, lim='unlimited', reads=2, attempts=1, pre='fresh', offset_fault='ok'):
+def h_download(c, lim='unlimited', reads=2, attempts=1, pre='fresh', offset_fault='ok', faults='basic'):
     """`attempts` consecutive download attempts of one transfer against a scripted uploader.
     pre: 'fresh' (QUEUED, no local path) | 'incomplete' (INCOMPLETE, local file of symbolic size)
        | 'requeued' (QUEUED after FAILED/PAUSED with a local file) | 'missing' (local path set, file gone)"""
@@ -630,7 +678,7 @@ def h_download(c, lim='unlimited', reads=2, attempts=1, pre='fresh', offset_faul
             size_before = fs.size(DL_PATH)
             appended_before = list(fs.files[DL_PATH].appended) if DL_PATH in fs.files else []
             of = offset_fault if a == 0 else 'ok'
-            sender = Sender(c, env, tag, reads, of)
+            sender = Sender(c, env, tag, reads, of, faults)
             conn = make_file_conn(env, net, sender, sender, dl_lim=make_limiter(c, lim, tag))
             ticket = 1000 + a
             req = PeerTransferRequest.Request(TransferDirection.DOWNLOAD.value, ticket, REMOTE, filesize=F)
@@ -670,11 +718,10 @@ def h_download(c, lim='unlimited', reads=2, attempts=1, pre='fresh', offset_faul
             # -- a break leaves INCOMPLETE / FAILED(reason) and keeps the received prefix -------
             if sender.fault is not None:
                 c.reach('break_' + sender.fault)
-                ok_state = (st == S.INCOMPLETE or (st == S.FAILED and transfer.fail_reason is not None)
-                            or st == S.COMPLETE)     # COMPLETE is policed by the obligations above
-                c.check(ok_state, 'break_gives_incomplete_or_failed', sig=sig,
+                c.check(break_state_ok(sender.fault, st, transfer.fail_reason), 'break_gives_incomplete_or_failed', sig=sig,
                         info=f'state after the break: {st.name}, fail_reason={transfer.fail_reason!r}, '
                              f'task finished={finished}, error={task_error(task)!r}')
+            c.check(not fs.concurrent, 'single_writer', sig=sig)
             if sender.fault is not None or st != S.COMPLETE:
                 now = [ch for _, ch in f.appended] if f is not None else []
                 want = [ch for _, ch in appended_before] + sender.handed
@@ -700,7 +747,7 @@ def h_download(c, lim='unlimited', reads=2, attempts=1, pre='fresh', offset_faul
 # ------------------------------------------------------------------------------------------
 
 class Receiver:
-    def __init__(self, c, env, offset, offset_read='ok', write_faults=True):
+    def __init__(self, c, env, offset, offset_read='ok', write_faults='basic'):
         self.c, self.env = c, env
         self.offset = offset
         self.offset_read = offset_read
@@ -725,14 +772,15 @@ class Receiver:
         data = self.written[-1]
         if not isinstance(data, Chunk):
             raise symex.HarnessError(f'unexpected write on the file connection: {data!r}')
-        kind = ['ok', 'reset', 'hang'][self.c.choose(3, f'drain{i}')] if self.write_faults else 'ok'
+        kinds = ['ok'] + (WRITE_FAULTS[self.write_faults] if self.write_faults else [])
+        kind = kinds[self.c.choose(len(kinds), f'drain{i}')]
         if kind == 'ok':
             self.sent.append(data)
             return
         self.fault = 'write_' + kind
-        if kind == 'reset':
-            raise ConnectionResetError('connection reset by peer')
-        await self.env.loop.create_future()
+        if kind == 'hang':
+            await self.env.loop.create_future()
+        raise SOCKET_ERRORS[kind]()
 
     def is_closing(self):
         return self.closed
@@ -755,23 +803,27 @@ class Receiver:
         if self.offset_read == 'partial':
             self.fault = 'offset_partial'
             raise asyncio.IncompleteReadError(b'\x00\x00', 8)
+        if self.offset_read in SOCKET_ERRORS:
+            self.fault = 'offset_' + self.offset_read
+            raise SOCKET_ERRORS[self.offset_read]()
         return wire_token(self.c, self.offset)
 
     async def read(self, n=-1):
         if n != -1:
             raise symex.HarnessError('the uploader reads file data?')
-        kind = ['eof', 'reset', 'data_then_eof', 'hang'][self.c.choose(4, 'final_read')]
+        kinds = ['eof', 'reset', 'data_then_eof', 'hang'] + (['aborted', 'oserror', 'timedout'] if self.write_faults == 'all' else [])
+        kind = kinds[self.c.choose(len(kinds), 'final_read')]
         self.end = kind
         if kind == 'eof':
             return b''
-        if kind == 'reset':
-            raise ConnectionResetError('connection reset by peer')
         if kind == 'data_then_eof':
             return b'\x01\x02\x03'
-        await self.env.loop.create_future()
+        if kind == 'hang':
+            await self.env.loop.create_future()
+        raise SOCKET_ERRORS[kind]()
 
 
-def h_upload(c, lim='unlimited', reads=2, offset_read='ok', write_faults=True):
+def h_upload(c, lim='unlimited', reads=2, offset_read='ok', write_faults='basic'):
     """one upload attempt through the real _initialize_upload / _upload_file against a scripted
     downloader.  Symbolic: announced size, actual size of the file on disk, negotiated offset,
     tokens per grant (anysize)."""
@@ -826,7 +878,7 @@ def h_upload(c, lim='unlimited', reads=2, offset_read='ok', write_faults=True):
                     info='COMPLETE but the bytes sent do not start at the negotiated offset / are not contiguous')
             c.check(pos == announced, 'upload_complete_sent_up_to_announced_size', sig=sig,
                     info='COMPLETE but offset + bytes sent differs from the announced file size')
-            c.check(recv.end in ('eof', 'reset', 'data_then_eof'), 'upload_complete_peer_closed', sig=sig,
+            c.check(recv.end is not None and recv.end != 'hang', 'upload_complete_peer_closed', sig=sig,
                     info='COMPLETE although the peer never closed the connection')
         if recv.fault is not None:
             c.reach('upload_break')
@@ -875,8 +927,9 @@ class Link:
     (optionally) a symbolic cut point: after `cut` file bytes reached the downloader the connection
     is reset for both ends"""
 
-    def __init__(self, c, env, tag, cut, max_segments, backpressure):
+    def __init__(self, c, env, tag, cut, max_segments, backpressure, cut_kind='reset'):
         self.c, self.env, self.tag = c, env, tag
+        self.cut_kind = cut_kind
         self.backpressure = backpressure
         self.cut = c.fresh_int(f'{tag}_cut_after', 0, U64) if cut else None
         self.max_segments = max_segments
@@ -906,7 +959,7 @@ class Link:
             return Chunk(-(1 << 80), len(head))
         if self.cut is not None and self.delivered >= self.cut:          # forks on the symbolic cut point
             self.kill()
-            raise ConnectionResetError('connection reset by peer')
+            raise SOCKET_ERRORS[self.cut_kind]()
         i = self.segments
         self.segments += 1
         if i >= self.max_segments:
@@ -1037,6 +1090,8 @@ class PairNet(FakeNet):
                 await self.other_mgr._on_peer_transfer_request(m, self.ctrl_at_other)
             elif isinstance(m, PeerUploadFailed.Request):
                 await self.other_mgr._on_peer_upload_failed(m, self.ctrl_at_other)
+            elif isinstance(m, PeerTransferQueue.Request):
+                await self.other_mgr._on_peer_transfer_queue(m, self.ctrl_at_other)
             else:
                 raise symex.HarnessError(f'unexpected peer message {m!r}')
 
@@ -1073,12 +1128,13 @@ class _PairCtrl(_Ctrl):
             self.peer_net.incoming_reply(self, m)
 
 
-def h_pair(c, lim='anysize', reads=2, segments=3, cuts=0, pre='fresh', attempts=1, backpressure=True):
+def h_pair(c, lim='anysize', reads=2, segments=3, cuts=0, pre='fresh', attempts=1, backpressure=True, cut_kind='reset'):
     """the real downloader against the real uploader.  Control messages are handed to the real
     handlers (_on_peer_transfer_request, _on_peer_upload_failed) directly; the file connection is a
     pipe with symbolic segmentation and (in the first `cuts` attempts) a symbolic cut point; the ticket goes
-    through the real _on_peer_initialized / receive_transfer_ticket.  Between attempts the harness
-    does what the PeerTransferQueue round trip does (re-queue the upload) and starts the upload."""
+    through the real _on_peer_initialized / receive_transfer_ticket.  Between attempts the downloader's real
+    _get_queued_transfers decides whether it tries again, the real _queue_remotely / _on_peer_transfer_queue
+    round trip re-queues the upload, and the harness starts the upload (what manage_transfers does)."""
     from aioslsk.events import PeerInitializedEvent
     with Env(c) as env:
         loop, fs = env.loop, env.fs
@@ -1086,8 +1142,6 @@ def h_pair(c, lim='anysize', reads=2, segments=3, cuts=0, pre='fresh', attempts=
         unet, dnet = PairNet(env), PairNet(env)
         umgr, dmgr = make_manager(env, unet), make_manager(env, dnet)
         umgr._ticket_generator = symbolic_tickets(c, 'u')
-        nobody_blocked = types.SimpleNamespace(users=types.SimpleNamespace(is_blocked=lambda u, f: False))
-        umgr._settings = dmgr._settings = nobody_blocked
         unet.other_mgr, dnet.other_mgr = dmgr, umgr
         dctrl = _PairCtrl('uploader', unet)        # what the downloader sees; its replies go to the uploader
         unet.ctrl_at_other = dctrl
@@ -1110,7 +1164,7 @@ def h_pair(c, lim='anysize', reads=2, segments=3, cuts=0, pre='fresh', attempts=
         for a in range(attempts):
             tag = f'a{a}'
             fs.files[UL_PATH] = SourceFile(F, reads)
-            link = Link(c, env, tag, a < cuts, segments, backpressure)
+            link = Link(c, env, tag, a < cuts, segments, backpressure, cut_kind)
             uend = End(link, link.to_up, link.to_down, False)
             dend = End(link, link.to_down, link.to_up, True)
             uconn = make_file_conn(env, unet, uend, uend, ul_lim=make_limiter(c, lim, f'u{a}'))
@@ -1129,7 +1183,7 @@ def h_pair(c, lim='anysize', reads=2, segments=3, cuts=0, pre='fresh', attempts=
             loop.run_until_quiet(max_time=HORIZON)
             dtask = down._transfer_task
             ds, us = down.state.VALUE, up.state.VALUE
-            sig = [lim, 'cut' if link.cut is not None else 'nocut', pre if a == 0 else 'retry', 'window1' if backpressure else 'buffered']
+            sig = [lim, ('cut_' + cut_kind) if link.cut is not None else 'nocut', pre if a == 0 else 'retry', 'window1' if backpressure else 'buffered']
             c.note('attempt', a, 'down', ds.name, down.fail_reason, 'up', us.name, up.fail_reason, 'dead', link.dead,
                    'errors', repr(task_error(utask)), [repr(task_error(t)) for t in side])
             f = fs.files.get(DL_PATH)
@@ -1158,8 +1212,8 @@ def h_pair(c, lim='anysize', reads=2, segments=3, cuts=0, pre='fresh', attempts=
                 c.check(link.down_closed or link.dead, 'upload_complete_peer_closed', sig=sig)
             if link.dead:
                 c.reach('pair_cut')
-                c.check(ds == S.INCOMPLETE or (ds == S.FAILED and down.fail_reason is not None) or ds == S.COMPLETE,
-                        'break_gives_incomplete_or_failed', sig=sig, info=f'download state after the cut: {ds.name}')
+                c.check(break_state_ok(cut_kind, ds, down.fail_reason), 'break_gives_incomplete_or_failed', sig=sig,
+                        info=f'download state after the cut: {ds.name}, fail_reason={down.fail_reason!r}')
             if f is not None:
                 c.check(f.size == size_before + link.delivered and not fs.removed and not fs.truncated,
                         'received_prefix_kept', sig=sig)
@@ -1179,13 +1233,143 @@ def h_pair(c, lim='anysize', reads=2, segments=3, cuts=0, pre='fresh', attempts=
                 if t is not None and not t.done():
                     t.cancel()
             loop.run_ready()
+            c.check(not fs.concurrent, 'single_writer', sig=sig)
             if ds == S.COMPLETE:
                 break
-            if up.state.VALUE in (S.FAILED, S.COMPLETE):
-                loop.run_until_complete(up.state.queue())
-            elif up.state.VALUE != S.QUEUED:
+            # -- does the pair try again by itself?  The downloader's real queue selection decides; then the real
+            # -- PeerTransferQueue round trip (_queue_remotely -> _on_peer_transfer_queue) re-queues the upload and the
+            # -- harness starts it (what manage_transfers does with a free slot)
+            again = any(t is down for t in dmgr._get_queued_transfers()[0])
+            if link.dead:
+                c.check(again, 'download_retried_after_break', sig=sig,
+                        info=f'after the connection broke the download is {ds.name} (fail_reason={down.fail_reason!r}, '
+                             f'remotely_queued={down.remotely_queued}): it is not picked up again without user action')
+            if not again:
+                break
+            loop.run_until_complete(dmgr._queue_remotely(down))
+            if up.state.VALUE != S.QUEUED:
                 break
         c.reach('pair_end')
+
+
+# ------------------------------------------------------------------------------------------
+# control messages arriving while an attempt is running
+# ------------------------------------------------------------------------------------------
+
+def h_interleave(c, lim='unlimited', pre='fresh', inject_at=0, reoffer=True, reads=2, release='all'):
+    """a download attempt A is started through the real _on_peer_transfer_request.  While it is running -- waiting for
+    the file connection (inject_at=-1) or after `inject_at` data reads, with the next read still pending on a connection
+    that has not failed -- a PeerUploadFailed for the file arrives (real _on_peer_upload_failed) and, with reoffer, the
+    uploader offers the file again (real _on_peer_transfer_request, new ticket).  If that starts a second download task it
+    gets its own file connection (uploader B) and runs; then the pending read of A is released (more data / EOF / an
+    error / silence) and everything runs to quiescence."""
+    with Env(c) as env:
+        loop, fs = env.loop, env.fs
+        net = FakeNet()
+        net.loop = loop
+        mgr = make_manager(env, net)
+        transfer = Transfer('peer', REMOTE, TransferDirection.DOWNLOAD)
+        transfer.state_listeners.append(mgr)
+        mgr._transfers.append(transfer)
+        F = c.fresh_int('filesize', 0, U64)
+        if pre == 'fresh':
+            set_state(transfer, S.QUEUED)
+        else:
+            transfer.local_path = DL_PATH
+            fs.files[DL_PATH] = LocalFile(c.fresh_int('local_size', 0, U64))
+            set_state(transfer, S.INCOMPLETE)
+            transfer.filesize = F
+        ctrl = _Ctrl()
+        started = []                      # download tasks, in the order they were created
+        real_init = mgr._initialize_download
+
+        def spy(*a, **kw):
+            coro = real_init(*a, **kw)
+            started.append(coro)
+            return coro
+        mgr._initialize_download = spy    # only counts the calls; the real coroutine runs
+
+        def offer(ticket):
+            req = PeerTransferRequest.Request(TransferDirection.DOWNLOAD.value, ticket, REMOTE, filesize=F)
+            before = len(started)
+            loop.run_until_complete(mgr._on_peer_transfer_request(req, ctrl))
+            loop.run_ready()
+            return transfer._transfer_task if len(started) > before else None
+
+        def inject():
+            loop.run_until_complete(mgr._on_peer_upload_failed(PeerUploadFailed.Request(REMOTE), ctrl))
+            loop.run_ready()
+            c.reach('upload_failed_injected')
+            return offer(1001) if reoffer else None
+
+        task_a = offer(1000)
+        if task_a is None:
+            raise symex.HarnessError('the first offer did not start a download')
+        fut_a = mgr._file_connection_futures.get(1000)
+        sender_a = Sender(c, env, 'a', reads, 'ok', release, gate_after=inject_at if inject_at >= 0 else None)
+        conn_a = make_file_conn(env, net, sender_a, sender_a, dl_lim=make_limiter(c, lim, 'a'))
+        task_b = None
+        state_at_injection = None
+        if inject_at < 0:
+            state_at_injection = transfer.state.VALUE
+            task_b = inject()
+        loop.call(fut_a.set_result, conn_a)
+        loop.run_ready()
+        if inject_at >= 0 and sender_a.gate is not None and not sender_a.gate.done():
+            state_at_injection = transfer.state.VALUE
+            task_b = inject()
+        sig = [lim, pre, inject_at, 'reoffer' if reoffer else 'no_reoffer']
+        sender_b = None
+        if task_b is not None:
+            # a second download of the same transfer was started
+            c.reach('second_task_started')
+            c.check(task_a.done(), 'at_most_one_download_task', sig=sig,
+                    info=f'a second download task was started (state at injection {state_at_injection.name}) while the first one '
+                         f'is still running on its file connection')
+            fut_b = mgr._file_connection_futures.get(1001)
+            if fut_b is not None and not fut_b.done():
+                sender_b = Sender(c, env, 'b', reads, 'ok', 'instant')
+                conn_b = make_file_conn(env, net, sender_b, sender_b, dl_lim=make_limiter(c, lim, 'b'))
+                loop.call(fut_b.set_result, conn_b)
+                loop.run_ready()              # B runs at this instant; A's connection is still silent
+        if sender_a.gate is not None and not sender_a.gate.done():
+            loop.call(sender_a.gate.set_result, None)
+        loop.run_until_quiet(max_time=HORIZON)
+        st = transfer.state.VALUE
+        sig = sig + [sender_a.fault or 'none']
+        c.note('inject_at', inject_at, 'state at injection', state_at_injection and state_at_injection.name, 'second task', task_b is not None,
+               'A fault', sender_a.fault, 'B fault', sender_b and sender_b.fault, 'final', st.name, transfer.fail_reason)
+        if state_at_injection is not None:
+            c.reach('injected_' + state_at_injection.name)
+        f = fs.files.get(DL_PATH)
+        c.check(not fs.concurrent, 'single_writer', sig=sig,
+                info='two tasks had the local file open for appending at the same time')
+        now = [ch for _, ch in f.appended] if f is not None else []
+        c.check(not fs.removed and not fs.truncated and len(now) == len(fs.handed_log)
+                and all(x is y for x, y in zip(now, fs.handed_log)), 'received_prefix_kept', sig=sig,
+                info='the local file is not what was there before plus the chunks handed over, once each, in order')
+        if st == S.COMPLETE:
+            c.reach('interleave_complete')
+            c.check(f is not None and not fs.removed and not fs.truncated, 'complete_file_present', sig=sig)
+            c.check(fs.size(DL_PATH) == F, 'complete_size_is_announced_size', sig=sig,
+                    info='COMPLETE but the local file size differs from the announced size')
+            if f is not None:
+                c.check(And(*[pos == ch.src for pos, ch in f.appended]) if f.appended else True,
+                        'complete_content_by_position', sig=sig,
+                        info='COMPLETE but a chunk was stored at a file position different from its source offset')
+        else:
+            # nothing broke on A (the downloader itself stopped reading) and there was no second attempt: if the whole file
+            # is there, the transfer must say so -- a PeerUploadFailed for a healthy attempt must not strand it
+            if sender_a.fault is None and sender_b is None and sender_a.offset is not None:
+                c.reach('healthy_attempt_not_complete')
+                whole = fs.size(DL_PATH) == F
+                c.check(Not(whole) if c.symbolic else not whole, 'intact_download_is_complete', sig=sig,
+                        info=f'every byte arrived and nothing broke, yet the download is {st.name}')
+        if sender_a.fault is not None and sender_b is None:
+            c.reach('interleave_break')
+            c.check(break_state_ok(sender_a.fault, st, transfer.fail_reason), 'break_gives_incomplete_or_failed', sig=sig,
+                    info=f'state after the break: {st.name}, fail_reason={transfer.fail_reason!r}')
+        c.reach('interleave_end')
 
 
 # ------------------------------------------------------------------------------------------
@@ -1356,6 +1540,8 @@ META = {
                   Transfer._transfer_progress_callback, Transfer.is_transfered, Transfer.add_speed_log_entry,
                   primitives.uint64.serialize, primitives.uint64.deserialize, primitives.uint32.serialize, primitives.uint32.deserialize,
                   PeerConnection.receive_transfer_ticket, TransferManager._on_peer_initialized, TransferManager._on_peer_transfer_request,
+                  TransferManager._on_peer_upload_failed, TransferManager._on_peer_transfer_queue, TransferManager._queue_remotely,
+                  TransferManager._get_queued_transfers,
                   state_mod.InitializingState.start_transferring, state_mod.DownloadingState.complete,
                   state_mod.DownloadingState.incomplete, state_mod.DownloadingState.fail, state_mod.UploadingState.complete,
                   state_mod.UploadingState.fail, state_mod.IncompleteState.initialize, state_mod.FailedState.queue,
@@ -1375,7 +1561,8 @@ META = {
               'model.time / rate_limiter.time -> virtual loop clock',
               'asyncio streams -> scripted reader/writer (Sender / Receiver / Link)',
               'Network -> FakeNet / PairNet (records messages, hands out the scripted reply and file connection)',
-              'SharesManager -> calculate_download_path returns a fixed non-existing path, create_directory no-op',
+              'SharesManager -> calculate_download_path returns a fixed non-existing path, create_directory no-op, find_shared_item finds it',
+              'Settings -> nobody blocked, no friends; UserManager.get_user_object -> every user ONLINE',
               'TransferManager built with object.__new__ and the attributes the kernels touch',
               'limiter kind "anysize": take_tokens returns a fresh symbolic 1..2^62 (superset of the two real limiters, which are '
               'also run)'],
@@ -1386,8 +1573,12 @@ META = {
                        'tokens per limiter grant (anysize: 1..2^62)', 'actual size of the uploaded file on disk 0..2^64-1',
                        'negotiated offset received by the uploader 0..2^64-1', 'cut point of the file stream (pair harness) 0..2^64-1',
                        'TCP segment lengths (pair harness)'],
-    'discriminants': ['how each read ends: data / EOF / reset / silence(time-out)', 'how the offset write ends: ok / reset / hang',
-                      'how each file write ends: ok / reset / hang', 'how the uploader\'s wait-for-close ends: EOF / reset / junk then EOF / never',
+    'discriminants': ['how each read ends: data / EOF / ConnectionResetError / ConnectionAbortedError / BrokenPipeError / OSError(EHOSTUNREACH) '
+                      '/ TimeoutError(ETIMEDOUT) / silence (aioslsk read time-out)',
+                      'how the offset write and each file write end: ok / the same five exception classes / hang (write time-out)',
+                      'interleave: point at which PeerUploadFailed arrives (waiting for the file connection, after 0..3 data reads with the '
+                      'next read pending), whether the uploader offers again, how the pending read of the old connection ends',
+                      'pair: exception class both ends see at the cut', 'how the uploader\'s wait-for-close ends: EOF / reset / junk then EOF / never',
                       'how the read of the offset ends on the uploader: ok / EOF / partial', 'number of data reads per attempt',
                       'number of attempts (1..3)', 'limiter: unlimited / limited(1 KiB/s) / anysize',
                       'pre-state: fresh / incomplete / requeued / local file missing',
@@ -1404,8 +1595,8 @@ META = {
                 'fault-free attempt within the iteration bounds with local size <= announced size ends COMPLETE on both clients '
                 '(pair harness, labels faultfree_attempt_completes_*); queue management, PeerTransferQueue round trips and retry '
                 'timing are not run',
-                'delivery order of control messages vs. the file connection (the pair harness runs one order: request, reply, '
-                'file connection, ticket, offset)',
+                'delivery orders of control messages other than: request, reply, file connection, ticket, offset (pair) and a '
+                'PeerUploadFailed (+ new PeerTransferRequest) arriving at enumerated points of a running attempt (interleave)',
                 'real sockets / aiofiles threads / a concurrently modified local file / disk errors',
                 'content dishonesty (a sender that sends other bytes than the file has at that offset cannot be detected by the protocol)',
                 'a remote file that changes between two attempts', 'a PeerTransferRequest without filesize',
@@ -1420,14 +1611,20 @@ def jobs(tier):
     out = []
     K = 3 if q else 6
     dl_req = ['offset_sent', 'download_complete', 'break_eof', 'break_reset', 'break_hang', 'download_end']
-    # one download attempt from every pre-state, every limiter
+    all_req = dl_req + ['break_aborted', 'break_pipe', 'break_oserror', 'break_timedout']
+    # one download attempt from every pre-state, every limiter; every way a socket read can fail
     for lim in ('unlimited', 'limited', 'anysize'):
         for pre in ('fresh', 'incomplete', 'requeued', 'missing'):
+            full = (not q) or lim == 'unlimited' or pre == 'incomplete'
             out.append({'harness': 'download', 'fn': h_download,
-                        'params': {'lim': lim, 'reads': K, 'attempts': 1, 'pre': pre}, 'requires': dl_req})
-    # the connection breaks while the offset is being sent, then a retry
-    for of in ('reset', 'hang'):
+                        'params': {'lim': lim, 'reads': K if not full else min(K, 4), 'attempts': 1, 'pre': pre,
+                                   'faults': 'all' if full else 'basic'},
+                        'requires': all_req if full else dl_req})
+    # the connection breaks while the offset is being sent (every error class), then a retry
+    for of in WRITE_FAULTS['all']:
         for pre in ('fresh', 'incomplete'):
+            if q and pre == 'incomplete' and of not in ('reset', 'hang'):
+                continue
             out.append({'harness': 'download', 'fn': h_download,
                         'params': {'lim': 'unlimited', 'reads': 1, 'attempts': 2, 'pre': pre, 'offset_fault': of},
                         'requires': ['break_offset_' + of, 'download_end']})
@@ -1438,16 +1635,20 @@ def jobs(tier):
                         'params': {'lim': lim, 'reads': 2 if q else 4, 'attempts': 2, 'pre': pre}, 'requires': dl_req})
             if not q:
                 out.append({'harness': 'download', 'fn': h_download,
+                            'params': {'lim': lim, 'reads': 2, 'attempts': 2, 'pre': pre, 'faults': 'all'}, 'requires': all_req})
+                out.append({'harness': 'download', 'fn': h_download,
                             'params': {'lim': lim, 'reads': 2, 'attempts': 3, 'pre': pre}, 'requires': dl_req})
     # one upload attempt against a scripted downloader
     for lim in ('unlimited', 'limited', 'anysize'):
-        out.append({'harness': 'upload', 'fn': h_upload, 'params': {'lim': lim, 'reads': K},
+        wf = 'all' if (lim == 'unlimited' or not q) else 'basic'
+        out.append({'harness': 'upload', 'fn': h_upload, 'params': {'lim': lim, 'reads': K if wf == 'basic' else min(K, 4), 'write_faults': wf},
                     'requires': ['ticket_sent', 'upload_complete', 'upload_break', 'upload_end']})
-    for orr in ('eof', 'partial'):
+    for orr in ('eof', 'partial', 'reset', 'oserror', 'timedout'):
         out.append({'harness': 'upload', 'fn': h_upload, 'params': {'lim': 'unlimited', 'reads': 1, 'offset_read': orr},
                     'requires': ['upload_break', 'upload_end']})
     # the two real clients against each other
     R, SEG = (2, 3) if q else (3, 4)
+    cut_req = ['pair_offset_sent', 'pair_cut', 'pair_download_complete', 'pair_end']
     for lim in ('anysize', 'unlimited', 'limited'):
         for pre in ('fresh', 'incomplete'):
             for bp in (True, False):
@@ -1459,12 +1660,28 @@ def jobs(tier):
                             'requires': ['pair_offset_sent', 'pair_both_complete', 'pair_faultfree_attempt', 'pair_end']})
                 out.append({'harness': 'pair', 'fn': h_pair,
                             'params': {'lim': lim, 'reads': R, 'segments': SEG, 'cuts': 1, 'pre': pre, 'attempts': 2,
-                                       'backpressure': bp},
-                            'requires': ['pair_offset_sent', 'pair_cut', 'pair_download_complete', 'pair_end']})
+                                       'backpressure': bp}, 'requires': cut_req})
+    # the cut seen as each of the other error classes (then the retry)
+    for kind in ('aborted', 'pipe', 'oserror', 'timedout'):
+        for bp in ((True,) if q else (True, False)):
+            out.append({'harness': 'pair', 'fn': h_pair,
+                        'params': {'lim': 'anysize' if not q else 'unlimited', 'reads': 2, 'segments': 2 if q else 3, 'cuts': 1,
+                                   'pre': 'fresh', 'attempts': 2, 'backpressure': bp, 'cut_kind': kind}, 'requires': cut_req})
     if not q:
         for bp in (True, False):
             out.append({'harness': 'pair', 'fn': h_pair,
                         'params': {'lim': 'anysize', 'reads': 2, 'segments': 2, 'cuts': 2, 'pre': 'fresh', 'attempts': 3,
-                                   'backpressure': bp},
-                        'requires': ['pair_offset_sent', 'pair_cut', 'pair_download_complete', 'pair_end']})
+                                   'backpressure': bp}, 'requires': cut_req})
+    # PeerUploadFailed (and a new offer) arriving while an attempt is running
+    for inject_at in ((-1, 0, 1, 2) if q else (-1, 0, 1, 2, 3)):
+        for reoffer in (True, False):
+            for pre in ('fresh', 'incomplete'):
+                for lim in (('unlimited',) if q else ('unlimited', 'anysize')):
+                    out.append({'harness': 'interleave', 'fn': h_interleave,
+                                'params': {'lim': lim, 'pre': pre, 'inject_at': inject_at, 'reoffer': reoffer,
+                                           'reads': max(2, inject_at + 1) if q else max(3, inject_at + 1),
+                                           'release': 'basic' if q else 'all'},
+                                'requires': ['upload_failed_injected', 'interleave_complete', 'interleave_end']
+                                + ([] if reoffer else ['interleave_break'])
+                                + (['injected_INITIALIZING'] if inject_at < 0 else ['injected_DOWNLOADING'])})
     return out
